@@ -134,6 +134,20 @@ fn interpret(resp: Result<Resp, String>) -> Exec {
 }
 
 pub fn exec_kind(w: &mut WorkerHandle, kind: &ReplayKind, render: bool, budget_ms: u32) -> Exec {
+    match exec_kind_(w, kind, render, budget_ms) {
+        Exec::Fail { assertion, message, rendering } if rendering.is_empty() => {
+            let rendering = match kind {
+                ReplayKind::Tape { tape, avoid } => w.render_tape(tape, *avoid),
+                ReplayKind::Enum { space, index, .. } => w.render_enum(*space, *index),
+                ReplayKind::Text { text } => format!("{:?}", text),
+            };
+            Exec::Fail { assertion, message, rendering }
+        }
+        e => e,
+    }
+}
+
+fn exec_kind_(w: &mut WorkerHandle, kind: &ReplayKind, render: bool, budget_ms: u32) -> Exec {
     match kind {
         ReplayKind::Tape { tape, avoid } => interpret(w.run_tape(tape, *avoid, render, budget_ms)),
         ReplayKind::Text { text } => interpret(w.run_text(text, render, budget_ms)),
@@ -463,8 +477,12 @@ fn run_space(id: &str, tier: Tier, space: usize, name: &str, size: u64, cpu_ms: 
                         break;
                     }
                 }
-                if let Some((idx, assertion, message, rendering)) = viol {
+                if let Some((idx, assertion, message, mut rendering)) = viol {
                     stop_at.fetch_min(b, Ordering::SeqCst);
+                    if rendering.is_empty() {
+                        rendering = w.render_enum(space, idx);
+                        shared.lock().unwrap().0.evaluated += idx - start + 1;
+                    }
                     shared.lock().unwrap().1.push((
                         idx,
                         Violation {
